@@ -77,6 +77,7 @@ def gen_invalid(rng, cfg):
         if what == "segment_key_b2s":
             junk = rng.choice(["dc", "fco", "source_block_device_logical_block_address", "bogus"])
         return {"op": "invalid", "kind": "xcopy", "ver": ver, "what": what, "junk": junk, "falsy": rng.choice([None, None, "zero", "false", "empty", "name"]),
+                "dt": rng.choice([4, 7, 2, 6, 8, 0x1F, rng.randrange(64)]),
                 "code": rng.choice([0x10, 0x7F, 0xDF, 0xFF, 0x55]), "nvalid": rng.randrange(3)}
     op = {"op": "invalid", "kind": "transport_id", "what": rng.choice(["sid_no_format", "format_no_sid"]),
           "sa": rng.choice([0, 7]), "pos": rng.randrange(2)}
@@ -161,6 +162,8 @@ def xcopy_kwargs(op):
         segs[-1] = b2s
     elif w == "target_code":
         targets[-1]["descriptor_type_code"] = op["code"] if op["code"] not in range(0xE0, 0xEB) else 0x10
+        if spc5 and op["code"] % 3 == 0:
+            targets[-1]["descriptor_type_code"] = 0xE3       # Parallel Interface T_L: a CSCD type SPC-5 no longer defines
         if op.get("falsy") is not None:
             targets[-1]["descriptor_type_code"] = {"zero": 0, "false": False, "empty": "", "name": "No such descriptor"}[op["falsy"]]
     elif w == "segment_code":
@@ -168,7 +171,11 @@ def xcopy_kwargs(op):
         if op.get("falsy") in ("empty", "name"):
             segs[-1]["descriptor_type_code"] = {"empty": "", "name": "No such descriptor"}[op["falsy"]]
     elif w == "device_type":
-        targets[-1]["peripheral_device_type"] = 0x1E
+        # peripheral device types an EXTENDED COPY CSCD/target descriptor may name: SPC-4 table 106 {00,01,03,04,05,07,0E}; SPC-5 dropped 04h and 07h
+        valid = {0, 1, 3, 4, 5, 7, 0x0E} if not spc5 else {0, 1, 3, 5, 0x0E}
+        invalid = [t for t in range(0x20) if t not in valid]
+        dt = op.get("dt", 2)
+        targets[-1]["peripheral_device_type"] = dt if dt in invalid else invalid[dt % len(invalid)]
     elif w == "lu_id_type":
         targets[-1]["lu_id_type"] = 1
     return {tkey: targets, "segment_descriptor_list": segs}
